@@ -1,6 +1,7 @@
 """C05 - every instruction word executes with the specified semantics (DESIGN 6-C05)."""
 import os, json, shutil
 import vlib
+from checks import c04
 
 
 def key_of(rj):
@@ -39,6 +40,12 @@ def run():
     res = vlib.validate_sharded('TraceIsa', 'TraceIsa.cfg', lines, 'c05', shards=16, timeout=3000)
     ck.add_traces('TraceIsa', res, 'instruction words decoded and executed by the real BytecodeMachine from recorded states; host IEEE operations in all rounding modes')
     ck.reject('TraceIsa', res, key_of)
+    # semantics that only show between instructions (a rounding mode set by CFROUND governs later FP instructions, also when a taken
+    # CBRANCH re-executes them; last-writer bookkeeping of no-op forms): short loop programs executed by the interpreter and by RxVm
+    recs = c04.record_vm(ck, wd, ['branch'], extra_args=['--np', '600' if ck.thorough else '160'])
+    seq = [l for l in recs['branch'] if not l.startswith('{"e":"run"') or '"engine":"interp"' in l]
+    c04.validate_vm(ck, 'c05seq', seq, 'loop programs (re-executed bodies with FP instructions and CFROUND, value-preserving writers, no-op IMUL_RCP) executed by the interpreter and by the TLA+ VM')
+    ck.cov['loop_programs'] = sum(1 for l in seq if '"first":true' in l)
     kinds, ops = {}, set()
     for l in lines:
         if l.startswith('{"e":"step"'):
